@@ -320,7 +320,7 @@ func shrink(run *hx.Run, h History, clause string) History {
 		}
 		return false
 	}
-	budget := 400
+	budget := 500
 	for changed := true; changed && budget > 0; {
 		changed = false
 		for i := len(h.Ops) - 1; i >= 0 && budget > 0; i-- {
@@ -331,9 +331,59 @@ func shrink(run *hx.Run, h History, clause string) History {
 				h, changed = c, true
 			}
 		}
+		// simplify head operations: drop whole blocks, then single block transactions and credits
+		for i := 0; i < len(h.Ops) && budget > 0; i++ {
+			if h.Ops[i].Kind != "head" {
+				continue
+			}
+			for b := len(h.Ops[i].Blocks) - 1; b >= 0 && budget > 0; b-- {
+				c := cloneHistory(h)
+				c.Ops[i].Blocks = append(c.Ops[i].Blocks[:b], c.Ops[i].Blocks[b+1:]...)
+				budget--
+				if failsSame(&c) {
+					h, changed = c, true
+					continue
+				}
+				for k := len(h.Ops[i].Blocks[b].Txs) - 1; k >= 0 && budget > 0; k-- {
+					c := cloneHistory(h)
+					c.Ops[i].Blocks[b].Txs = append(c.Ops[i].Blocks[b].Txs[:k], c.Ops[i].Blocks[b].Txs[k+1:]...)
+					budget--
+					if failsSame(&c) {
+						h, changed = c, true
+					}
+				}
+				if h.Ops[i].Blocks[b].Credits != [nAccounts]uint64{} && budget > 0 {
+					c := cloneHistory(h)
+					c.Ops[i].Blocks[b].Credits = [nAccounts]uint64{}
+					budget--
+					if failsSame(&c) {
+						h, changed = c, true
+					}
+				}
+			}
+		}
 	}
 	return h
 }
+
+func cloneHistory(h History) History {
+	c := h
+	c.Ops = make([]Op, len(h.Ops))
+	for i, o := range h.Ops {
+		c.Ops[i] = o
+		c.Ops[i].Txs = append([]ATx{}, o.Txs...)
+		c.Ops[i].Blocks = make([]BlockSpec, len(o.Blocks))
+		for j, b := range o.Blocks {
+			c.Ops[i].Blocks[j] = b
+			c.Ops[i].Blocks[j].Txs = append([]ATx{}, b.Txs...)
+		}
+	}
+	return c
+}
+
+// shrunk counts how many failures of a kind were minimised in this run; the first few of every kind are shrunk by delta
+// debugging, later ones are reported with the history that found them (shrinking re-runs the history hundreds of times).
+var shrunk = map[string]int{}
 
 func report(run *hx.Run, h *History, fails []failure) {
 	seen := map[string]bool{}
@@ -342,13 +392,18 @@ func report(run *hx.Run, h *History, fails []failure) {
 			continue
 		}
 		seen[f.clause] = true
-		small := shrink(run, *h, f.clause)
-		detail := f.detail
-		for _, g := range runHistory(run, &small, false) {
-			if g.clause == f.clause {
-				detail = g.detail
-				break
+		small, detail := *h, f.detail
+		if shrunk[f.clause] < 3 {
+			shrunk[f.clause]++
+			small = shrink(run, *h, f.clause)
+			for _, g := range runHistory(run, &small, false) {
+				if g.clause == f.clause {
+					detail = g.detail
+					break
+				}
 			}
+		} else if f.step >= 0 && f.step+1 < len(small.Ops) {
+			small.Ops = small.Ops[:f.step+1] // at least cut the history at the failing step
 		}
 		run.Violate(f.clause, f.clause+" "+small.String(), small, detail+" | history: "+small.String())
 	}
